@@ -313,4 +313,5 @@ def run(chk):
 
     common.arg_agreement_rule(chk, P, "C14", [("emit_otlp", "src/client.rs"), ("emit_otlp", "src/data/metrics.rs"),
                                                ("emit_otlp", "src/data/traces.rs"), ("emit_otlp", "src/data/logs.rs"), ("emit", "src/kind.rs")], 5)
+    common.builder_rules(chk, P, "C14", lambda b: b.key.startswith("emit_otlp::client::OtlpBuilder::") or b.key.startswith("emit::metric::Metric::<"), 8)
     return chk
